@@ -17,14 +17,13 @@ theorem module_mode (table : List OptSpec) (o r : List String) (m : String) (opt
     (ho1 : "-m" ∉ o) (ho2 : "--" ∉ o) (hm : m ≠ "--")
     (hdec : decodeOpts table {} o = .ok (opts, [])) :
     parseCmd table (o ++ "-m" :: m :: r) = .ok { opts := opts, isModule := true, target := m, argv := r } := by
-  simp [parseCmd, pp_module o r m ho1 ho2 hm, hdec]
+  simp [parseCmd, parseCmdWith, pp_module o r m ho1 ho2 hm, hdec]
 
 /-- **script_plain**: in script mode, arguments without an unshielded `-m` or `--` reach the program verbatim,
     even when they look like kernprof options -/
 theorem script_plain (table : List OptSpec) (o r : List String) (s : String) (opts : Opts)
     (ho1 : "-m" ∉ o) (ho2 : "--" ∉ o) (hs1 : s ≠ "-m") (hs2 : s ≠ "--")
     (hr1 : "-m" ∉ r) (hr2 : "--" ∉ r)
-    (hamb : firstAmbiguous table r = none)
     (hdec : decodeOpts table {} (o ++ [s]) = .ok (opts, [s])) :
     parseCmd table (o ++ s :: r) = .ok { opts := opts, isModule := false, target := s, argv := r } := by
   have h1 : "-m" ∉ o ++ s :: r := by
@@ -48,7 +47,7 @@ theorem script_plain (table : List OptSpec) (o r : List String) (s : String) (op
       unfold stripSep; split
       · rename_i heq; cases heq; exact absurd rfl this
       · rfl
-  simp [parseCmd, pp_plain _ h1 h2, hd, hstrip, hamb]
+  simp [parseCmd, parseCmdWith, pp_plain _ h1 h2, hd, hstrip]
 
 /-- **script_shielded**: with the documented `--` directly after the script, *every* list — including `-m`
     and further `--` tokens — reaches the program verbatim -/
@@ -59,8 +58,7 @@ theorem script_shielded (table : List OptSpec) (o r : List String) (s : String) 
   have hd := decode_extend table (o ++ [s]) {} opts s [] ["--"] hdec
   have e : o ++ [s] ++ ["--"] = o ++ [s, "--"] := by simp
   rw [e] at hd
-  have hfa : firstAmbiguous table ["--"] = none := by simp [firstAmbiguous]
-  simp [parseCmd, pp_shielded o r s ho1 ho2 hs1 hs2, hd, stripSep, hfa]
+  simp [parseCmd, parseCmdWith, pp_shielded o r s ho1 ho2 hs1 hs2, hd, stripSep]
 
 /-- **options_only_from_prefix**: profiler type, output file and viewing are functions of the decoded prefix and
     the target alone — two command lines with the same prefix and target but different program arguments agree -/
@@ -89,16 +87,26 @@ theorem example_shielded :
       { opts := { flags := ["--line-by-line"], values := [] }, isModule := false,
         target := "s.py", argv := ["-m", "x", "--", "-l"] } = true := by decide +kernel
 
-/-- **F-C15a witness**: on kernprof's own option table, a program argument that is an ambiguous prefix of two long options
-    (`--pro`: `--prof-mod`, `--prof-imports`) after a script named without `--` aborts the run; the unambiguous `--vie`, the exact
-    `--view`, and the same `--pro` behind `--` or behind `-m mod` all reach the program -/
+/-- kernprof builds its parsers without abbreviations (read from the tree by the translator) -/
+theorem kernprof_no_abbrev : Generated.kernprofAllowAbbrev = false := by decide
+
+/-- … so the parser kernprof runs is the one the theorems above are about -/
+theorem kernprof_parser (args : List String) :
+    parseCmdWith Generated.kernprofAllowAbbrev Generated.kernprofOptions args = parseCmd Generated.kernprofOptions args := by
+  rw [kernprof_no_abbrev]; rfl
+
+/-- **F-C15a (repaired)**: with argparse's default (`allow_abbrev=True`), on kernprof's own option table, a program argument that is
+    an ambiguous prefix of two long options (`--pro`: `--prof-mod`, `--prof-imports`) after a script named without `--` aborted the
+    run; the unambiguous `--vie`, the exact `--view`, and the same `--pro` behind `--` or behind `-m mod` reached the program.
+    Without abbreviations `--pro` reaches the program too. -/
 def argvIs (r : Except Err Cmd) (a : List String) : Bool := match r with | .ok c => decide (c.argv = a) | .error _ => false
 def isAmbiguous (r : Except Err Cmd) (t : String) : Bool := match r with | .error (.ambiguous t') => decide (t' = t) | _ => false
 theorem ambiguous_prefix_witness :
-    isAmbiguous (parseCmd Generated.kernprofOptions ["s.py", "--pro"]) "--pro" = true ∧
-    argvIs (parseCmd Generated.kernprofOptions ["s.py", "--vie", "--view"]) ["--vie", "--view"] = true ∧
-    argvIs (parseCmd Generated.kernprofOptions ["s.py", "--", "--pro"]) ["--pro"] = true ∧
-    argvIs (parseCmd Generated.kernprofOptions ["-m", "mod", "--pro"]) ["--pro"] = true := by
+    isAmbiguous (parseCmdWith true Generated.kernprofOptions ["s.py", "--pro"]) "--pro" = true ∧
+    argvIs (parseCmdWith true Generated.kernprofOptions ["s.py", "--vie", "--view"]) ["--vie", "--view"] = true ∧
+    argvIs (parseCmdWith true Generated.kernprofOptions ["s.py", "--", "--pro"]) ["--pro"] = true ∧
+    argvIs (parseCmdWith true Generated.kernprofOptions ["-m", "mod", "--pro"]) ["--pro"] = true ∧
+    argvIs (parseCmd Generated.kernprofOptions ["s.py", "--pro"]) ["--pro"] = true := by
   decide +kernel
 
 end LPVerif.Props.C15
